@@ -39,7 +39,8 @@ ASSUMPTIONS = ['theorems: untilted fields (the tilted-chip cases are tied and de
                'comparison tolerance 1e-9*(1+max|expected|)']
 RULE = ('random supports <= 7x7 (quick) / 10x10 (thorough), random labelling into 1..4 segments (bounding boxes overlap), chains of '
         '1..3 pupils with scalar/array amplitude and OPD, propagate_dft with shape/prop_shape/oversample 1..3; each case run '
-        'segmented and monolithic; segmented pupils with a different tilt per segment and prop_shape < shape (chips disjoint / '
+        'segmented and monolithic (optionally with a tilted incoming wavefront, lentil.Tilt planes before/after the apertures, and ONE '
+        'incoming Wavefront object re-used for both descriptions); segmented pupils with a different tilt per segment and prop_shape < shape (chips disjoint / '
         'disjoint / bridging in every order) compared with the sum of the single-segment propagations; whole-array vs cropped '
         'sub-array(s)-with-offset wavefronts; non-trivial = at least two segments with overlapping bounding boxes, tilted chips, '
         'or at least two sub-arrays')
@@ -120,15 +121,33 @@ def p7_tplane(c, only=None):
     return base
 
 
+def shift_tilt(c, shift):
+    """lentil.Tilt(x=a, y=b) arguments that move every chip by the integer shift (row, col) in oversampled output pixels"""
+    dur, duc = pair(c['call']['du'], F)
+    z, os = F(c['z']), c['call']['os']
+    return [str(F(shift[0]) * dur / (os * z)), str(-F(shift[1]) * duc / (os * z))]
+
+
+def real_planes(c):
+    return [pl for pl in c['planes'] if 'shift' not in pl]
+
+
 def p7_case(c, seg):
-    return {'op': 'chain', 'L': c['Lo'], 'lam': c['wl'], 'wpix': None, 'wfocal': None, 'wtilt': None,
-            'planes': [p7_plane(pl, c, seg) for pl in c['planes']], 'insert': None}
+    planes = []
+    for pl in c['planes']:
+        if 'shift' in pl:        # a lentil.Tilt plane in the chain
+            a, b = shift_tilt(c, pl['shift'])
+            planes.append(P7.tilt_plane(a, b))
+        else:
+            planes.append(p7_plane(pl, c, seg))
+    return {'op': 'chain', 'L': c['Lo'], 'lam': c['wl'], 'wpix': None, 'wfocal': None,
+            'wtilt': shift_tilt(c, c['wshift']) if c.get('wshift') else None, 'planes': planes, 'insert': None}
 
 
 def call_shapes(c):
     call = c['call']
     if c['op'] in ('seg', 'tseg'):
-        lab = c['planes'][-1]['labels']
+        lab = real_planes(c)[-1]['labels']
         wshape = (len(lab), len(lab[0]))
     else:
         wshape = (len(c['g']), len(c['g'][0]))
@@ -201,6 +220,22 @@ def rnd_seg(rng, maxn, maxs):
         dx = [dx, rng.choice(DYAD[:3])]
     c = {'op': 'seg', 'Lo': Lo, 'wl': rng.choice(['1/2', '1/4', '3/4', '1', '3/8']), 'z': rng.choice(['1', '2', '4', '3', '3/2']),
          'dx': dx, 'planes': planes, 'call': rnd_call(rng, (n, m), maxs)}
+    # tilt carried by the incoming wavefront and lentil.Tilt planes before / after the apertures (integer chip shifts
+    # whose angles are dyadic, so that the floats passed to lentil are the exact angles)
+    def dyadic_shift():
+        sh = [rng.randint(-2, 2), rng.randint(-2, 2)]
+        for _ in range(3):
+            if all((F(a).denominator & (F(a).denominator - 1)) == 0 for a in shift_tilt(c, sh)):
+                return sh
+            sh = [3 * sh[0], 3 * sh[1]]
+        return [0, 0]
+    if rng.random() < 0.45:
+        if rng.random() < 0.7:
+            c['wshift'] = dyadic_shift()
+        for _ in range(rng.choice([1, 1, 2])):
+            planes.insert(rng.randint(0, len(planes)), {'shift': dyadic_shift()})
+    # the two descriptions start from ONE Wavefront object (re-used afterwards) or from two fresh ones
+    c['reuse'] = rng.choice([None, None, 'seg-first', 'mono-first'])
     return c
 
 
@@ -342,7 +377,8 @@ def classify(c):
         return 'crop'
     if c['op'] == 'tseg':
         return 'tseg/' + chip_kind(c)
-    return ('seg/' + '-'.join(str(pl['k']) for pl in c['planes']) + ('/opd' if c['Lo'] > 1 else '')
+    return ('seg/' + '-'.join(('T' if 'shift' in pl else str(pl['k'])) for pl in c['planes']) + ('/wt' if c.get('wshift') else '')
+            + ('/reuse' if c.get('reuse') else '') + ('/opd' if c['Lo'] > 1 else '')
             + ('/1px' if single_sample(c) else ''))
 
 
@@ -351,7 +387,7 @@ def nontrivial(c):
         return len(c['variants'][-1]) > 1
     if c['op'] == 'tseg':
         return True
-    for pl in c['planes']:
+    for pl in real_planes(c):
         segs = [[[v == q for v in row] for row in pl['labels']] for q in range(pl['k'])]
         bbs = [P7.bbox(s) for s in segs]
         for i in range(len(bbs)):
@@ -378,9 +414,12 @@ def encode(c):
     if c['op'] == 'seg':
         out = [1, L] + C.enc_q(lam)
         for seg in (True, False):
-            out += [len(c['planes'])]
-            for pl in c['planes']:
-                out += P7.enc_plane(p7_plane(pl, c, seg), c['Lo'], lam)
+            pc = p7_case(c, seg)
+            if seg:
+                out += P7.enc_tilts([pc['wtilt']] if pc['wtilt'] else [])
+            out += [len(pc['planes'])]
+            for pl in pc['planes']:
+                out += P7.enc_plane(pl, c['Lo'], lam)
         return out + enc_call(c)
     if c['op'] == 'tseg':
         return [4, L] + C.enc_q(lam) + [1] + P7.enc_plane(p7_tplane(c), c['Lo'], lam) + enc_call(c)
@@ -450,12 +489,18 @@ def do_call(lentil, w, c):
             'intensity': P7.view(lambda: o.intensity)}
 
 
-def run_variant(lentil, c, seg):
+def mk_w0(lentil, c):
+    pc = p7_case(c, True)
+    return lentil.Wavefront(wavelength=float(F(c['wl'])),
+                            tilt=None if not pc['wtilt'] else [float(F(pc['wtilt'][0])), float(F(pc['wtilt'][1]))])
+
+
+def run_variant(lentil, c, seg, w0=None):
     lam = F(c['wl'])
     try:
-        w = lentil.Wavefront(wavelength=float(lam))
-        for pl in c['planes']:
-            w = w * P7.mk_plane(p7_plane(pl, c, seg), c['Lo'], lam)
+        w = mk_w0(lentil, c) if w0 is None else w0
+        for pl in p7_case(c, seg)['planes']:
+            w = w * P7.mk_plane(pl, c['Lo'], lam)
     except Exception as e:
         return {'err': type(e).__name__}
     return {'pre_field': P7.view(lambda: w.field), 'pre_intensity': P7.view(lambda: w.intensity),
@@ -465,6 +510,15 @@ def run_variant(lentil, c, seg):
 def run_impl(c):
     lentil = C.import_lentil()
     if c['op'] == 'seg':
+        if c.get('reuse'):
+            w0 = mk_w0(lentil, c)       # ONE incoming wavefront object for both descriptions
+            if c['reuse'] == 'seg-first':
+                a = run_variant(lentil, c, True, w0)
+                b = run_variant(lentil, c, False, w0)
+            else:
+                b = run_variant(lentil, c, False, w0)
+                a = run_variant(lentil, c, True, w0)
+            return {'seg': a, 'mono': b}
         return {'seg': run_variant(lentil, c, True), 'mono': run_variant(lentil, c, False)}
     if c['op'] == 'tseg':
         lam = F(c['wl'])
@@ -529,7 +583,8 @@ def same_view(a, b, what):
         if a.get('err') != b.get('err'):
             return f'{what}: {a.get("err", "ok")} vs {b.get("err", "ok")}'
         return None
-    return P7.cmp_view(a, b, TOL, what)
+    m = P7.cmp_view(a, b, TOL, what)
+    return m.replace(', model ', ', the other description gives ') if m else None
 
 
 def coherent(fv, iv, what):
